@@ -110,15 +110,21 @@ func execute(sc scenario) result {
 		}}
 	}
 	m := ogm.NewOpenGameManager(newOpts(0))
+	curGC, curN := 0, 0
+	signalled := map[string]bool{}
 	for _, o := range sc.Ops {
 		r := opRes{Op: o, T0: time.Now()}
 		switch o.Kind {
 		case "setup":
 			m.Setup(o.GC, o.Parts)
+			curGC, curN, signalled = o.GC, len(o.Parts), map[string]bool{}
 		case "ready":
 			before := stateString(m.GetState())
 			r.Err = m.Ready(o.ID)
 			r.StateEqual = before == stateString(m.GetState())
+			if r.Err == nil {
+				signalled[o.ID] = true
+			}
 		case "pause", "wait":
 			time.Sleep(time.Duration(o.Ms) * time.Millisecond)
 		case "rebuild":
@@ -140,6 +146,25 @@ func execute(sc scenario) result {
 		mu.Unlock()
 		r.T1 = time.Now()
 		res.Ops = append(res.Ops, r)
+	}
+	// the last set-up is complete (everybody signalled) but has not fired yet: give it a
+	// generous, bounded time; on the correct gate this loop ends within microseconds, so the
+	// bound is only ever spent on a gate that does not fire (judged as never-fired)
+	if curN > 0 && len(signalled) == curN {
+		for deadline := time.Now().Add(3 * time.Second); time.Now().Before(deadline); {
+			mu.Lock()
+			fired := false
+			for _, f := range res.Fires {
+				if f.GC == curGC {
+					fired = true
+				}
+			}
+			mu.Unlock()
+			if fired {
+				break
+			}
+			time.Sleep(200 * time.Microsecond)
+		}
 	}
 	// grace period: look for late or double firings
 	time.Sleep(30 * time.Millisecond)
